@@ -1566,10 +1566,48 @@ def _mk_rel(fn, bi, rel, A, B, t, neg, line=None, ops=(frozenset(), frozenset())
     return c
 
 
+_ZERO_ATOMS = frozenset([('C', 'num_traits::identities::Zero::zero'), ('V', 0), ('K', 'ZERO')])
+
+
+class _SignRel:
+    """view of a sign predicate condition as a relation with zero"""
+    kind = 'rel'
+
+    def __init__(self, c):
+        self.bb, self.arms, self.line = c.bb, c.arms, c.line
+        if c.pred.endswith('::is_negative'):
+            self.rel, self.A, self.B = 'lt', c.A, _ZERO_ATOMS
+        elif c.pred.endswith('::is_positive'):
+            self.rel, self.A, self.B = 'lt', _ZERO_ATOMS, c.A
+        else:
+            self.rel, self.A, self.B = 'eq', c.A, _ZERO_ATOMS
+        self.opsA = getattr(c, 'opsA', set())
+        self.opsB = set()
+
+
+def is_zero_side(atoms):
+    """the operand is the constant zero (`T::zero()`, literal 0, a ZERO constant) and nothing else"""
+    vals = [a for a in atoms if a[0] in ('C', 'V', 'K', 'F', 'P', 'T', 'E')]
+    if not vals:
+        return False
+    for a in vals:
+        if a[0] == 'C' and (a[1].endswith('::zero') or a[1].endswith('Zero::zero') or a[1].endswith('::default')):
+            continue
+        if a[0] == 'V' and str(a[1]) == '0':
+            continue
+        if a[0] == 'K' and a[1].endswith('ZERO'):
+            continue
+        return False
+    return True
+
+
 def match_rel(c, rel, a_pats, b_pats):
     """Does cond c express `A rel B` (possibly as the negation on the other arm)? Returns the truth value of
     the arm on which `A rel B` HOLDS (True/False) or None if no match.
     rel in lt/le/eq/ne/gt/ge; a_pats/b_pats are lists of atom patterns required on each side."""
+    if c.kind == 'pred' and isinstance(c.pred, str) and c.pred.endswith(('::is_negative', '::is_positive', '::is_zero')):
+        # x.is_negative() is x < 0, x.is_positive() is 0 < x, x.is_zero() is x == 0: judged as the relation with zero
+        c = _SignRel(c)
     if c.kind != 'rel':
         return None
     if rel in ('gt', 'ge'):
